@@ -171,10 +171,10 @@ func (g *rtRig) openTx() int {
 	return n
 }
 
-// rest waits (state inspection, 5 s liveness bound) until the connections are drained and every return goroutine whose
+// rest waits (state inspection, 60 s liveness bound) until the connections are drained and every return goroutine whose
 // stream is closed has ended; returns the number of return goroutines
 func (g *rtRig) rest() int {
-	dl := time.Now().Add(5 * time.Second)
+	dl := time.Now().Add(60 * time.Second) // state inspection; the bound only ends a run that is really stuck
 	for {
 		idle := true
 		g.mu.Lock()
@@ -196,7 +196,7 @@ func (g *rtRig) rest() int {
 }
 
 func (g *rtRig) pipesIdle() {
-	dl := time.Now().Add(5 * time.Second)
+	dl := time.Now().Add(60 * time.Second) // state inspection; the bound only ends a run that is really stuck
 	for time.Now().Before(dl) {
 		idle := true
 		g.mu.Lock()
@@ -362,7 +362,7 @@ func (g *rtRig) run(steps int) {
 			g.apps[x.a].Write(x.d)
 		}
 		last := ops[len(ops)-1]
-		dl := time.Now().Add(5 * time.Second)
+		dl := time.Now().Add(60 * time.Second) // state inspection; the bound only ends a run that is really stuck
 		take := func() {
 			for _, ar := range g.drain() {
 				ar := ar
@@ -456,7 +456,7 @@ func (g *rtRig) run(steps int) {
 			if s.tx != nil {
 				s.tx.SetReadDeadline(time.Now().Add(-time.Second))
 			}
-			dl := time.Now().Add(5 * time.Second)
+			dl := time.Now().Add(60 * time.Second) // state inspection; the bound only ends a run that is really stuck
 			for !s.txClosed() && time.Now().Before(dl) {
 				time.Sleep(100 * time.Microsecond)
 			}
